@@ -154,4 +154,54 @@ print(json.dumps({"osdd": len(tab), "bad": bad, "bad_standard_forms": bad_sf, "l
     if r['bad'] or r['lis_bad']:
         out['violation'] = 'table entries with zero / non-finite scale: %s %s' % (r['bad'][:5], r['lis_bad'][:5])
         out['replay'] = '# %s\nimport sys; print(%r); sys.exit(1)\n' % (out['violation'], out['violation'])
-    return [out]
+    return [out, _array_standin(tier, seed)]
+
+
+def _array_standin(tier, seed):
+    """convert_array / convert_array_inplace against element-wise scalar convert, for float AND integer arrays (the contracts
+    are stated in the real-number model and do not see numpy dtypes): bounded."""
+    from pyvc import standin
+    n = 150 if tier == 'quick' else 4000
+    code = r'''
+import numpy as np
+from TotalDepth.common import units
+rnd = random.Random(%d)
+tab = units.read_osdd_static_data()
+by_dim = {}
+for k, u in tab.items():
+    by_dim.setdefault(u.dimension, []).append(k)
+dims = [d for d, ks in by_dim.items() if len(ks) >= 2]
+bad = []
+cases = 0
+for it in range(%d):
+    d = rnd.choice(dims)
+    a, b = rnd.sample(by_dim[d], 2)
+    ua, ub = tab[a], tab[b]
+    dtype = rnd.choice(['float64', 'float64', 'float32', 'int64', 'int32', 'int16'])
+    vals = [rnd.choice([0, 1, 2, 3, 1000, -7, 12345]) if dtype.startswith('int') else rnd.choice([0.0, 1.0, -2.5, 1000.125, 3.0e-3, 98765.4321])
+            for _ in range(rnd.randint(1, 6))]
+    arr = np.array(vals, dtype=dtype)
+    want = [units.convert(float(v), ua, ub) for v in arr]
+    tol = 1e-5 if dtype == 'float32' else 1e-11
+    if dtype == 'float32' and any(w != 0 and not (1e-30 < abs(w) < 1e30) for w in want):
+        continue          # outside what a float32 array can hold: not a conversion error
+    cases += 1
+    try:
+        got = units.convert_array(arr, ua, ub)
+        ok = len(got) == len(want) and all(abs(float(g) - w) <= tol * max(1.0, abs(w)) for g, w in zip(got, want))
+        if ok and dtype.startswith('float'):
+            arr2 = arr.copy()
+            units.convert_array_inplace(arr2, ua, ub)
+            ok = all(abs(float(g) - w) <= tol * max(1.0, abs(w)) for g, w in zip(arr2, want))
+        why = 'array conversion differs from the scalar conversion of each element'
+    except Exception as e:
+        ok, why, got = False, 'exception %%r' %% (e,), None
+    if not ok and len(bad) < 3:
+        bad.append({'from': a, 'to': b, 'dtype': dtype, 'values': vals, 'why': why, 'got': None if got is None else [float(g) for g in got], 'want': want})
+print(json.dumps({'cases': cases, 'bad': bad}))
+if bad:
+    sys.exit(1)
+''' % (seed, n)
+    return standin.run('array-conversion-equals-scalar-conversion', 'bounded: convert_array / convert_array_inplace on float64, float32, int64, int32 and '
+                       'int16 arrays against scalar convert of each element, random unit pairs of the OSDD table',
+                       '%d arrays of 1..6 values' % n, code)
